@@ -132,6 +132,7 @@ class FuncCheck:
         self.case = case_name
         self.results = {}     # obligation name -> list of (status|future, model, dt, pathno, note, backend)
         self.failed = []
+        self.structural = set()   # labels of obligations about the SHAPE of the code (helper level), not the property
         self.thorough = getattr(run, 'tier', 'quick') == 'thorough'
         self.limit_s = 120 if self.thorough else 40
 
@@ -231,7 +232,9 @@ class FuncCheck:
         if post is not None:
             post(self, E, p.args, p.kwargs, p)
 
-    def ensure(self, label, goal, note=None):
+    def ensure(self, label, goal, note=None, structure=False):
+        if structure:
+            self.structural.add(label)
         E = self.E
         p, k = self.cur
         try:
@@ -245,7 +248,9 @@ class FuncCheck:
         except Undecided as u:
             self.results.setdefault(label, []).append(('unknown', None, 0.0, k, str(u), 'engine'))
 
-    def ensure_eq(self, label, a, b):
+    def ensure_eq(self, label, a, b, structure=False):
+        if structure:
+            self.structural.add(label)
         try:
             g = self.E.veq(a, b)
         except Undecided as u:
@@ -279,7 +284,7 @@ class FuncCheck:
                 bad = [r for r in done if r[0] == 'refuted'][0]
                 detail = dict(path=bad[3], note=bad[4], model=(bad[1] or '')[:1500])
                 self.run.obligation(nm, 'refuted', backends, dt, detail=detail)
-                self.failed.append((nm, label, detail))
+                self.failed.append((nm, 'structure' if label in self.structural else label, detail))
             else:
                 notes = [str(r[4]) for r in done if r[4]] + [str(r[1])[:100] for r in done if r[0] == 'unknown' and r[1]]
                 self.run.obligation(nm, 'unknown', backends, dt, detail='; '.join(notes)[:300])
